@@ -96,6 +96,23 @@ pub proof fn lemma_cands_wf(r: Seq<RealInode>, ctx: Context, m: nat, nm: Seq<cha
         }
     }
 }
+// scan_childrens' accumulator after `j` layers: name -> the entries of that name found so far, topmost first
+pub open spec fn acc_ok(a: Map<Seq<char>, Vec<RealInode>>, rs: Seq<RealInode>, ctx: Context, j: nat) -> bool {
+    forall|nm: Seq<char>| (#[trigger] a.contains_key(nm) <==> cands(rs, ctx, j, nm).len() > 0) && (a.contains_key(nm) ==> a[nm]@ == cands(rs, ctx, j, nm))
+}
+pub open spec fn consumed<V>(l: Seq<(String, V)>, p: int, nm: Seq<char>) -> bool { exists|q: int| 0 <= q < p && (#[trigger] l[q]).0@ == nm }
+// ... while the listing `d` of layer j is being added (p of its entries `l` consumed, in whatever order the HashMap yields them)
+pub open spec fn acc_mid(a: Map<Seq<char>, Vec<RealInode>>, rs: Seq<RealInode>, ctx: Context, j: nat, d: Map<Seq<char>, RealInode>, l: Seq<(String, RealInode)>, p: int) -> bool {
+    forall|nm: Seq<char>| (#[trigger] a.contains_key(nm) <==> (cands(rs, ctx, j, nm).len() > 0 || consumed(l, p, nm)))
+        && (a.contains_key(nm) ==> a[nm]@ == (if consumed(l, p, nm) { cands(rs, ctx, j, nm).push(d[nm]) } else { cands(rs, ctx, j, nm) }))
+}
+pub proof fn lemma_consumed_all<V>(d: Map<Seq<char>, V>, l: Seq<(String, V)>, nm: Seq<char>)
+    requires map_listing(d, l)
+    ensures consumed(l, l.len() as int, nm) <==> d.contains_key(nm)
+{
+    if d.contains_key(nm) { let i = choose|i: int| 0 <= i < l.len() && (#[trigger] l[i]).0@ == nm; assert(consumed(l, l.len() as int, nm)); }
+    if consumed(l, l.len() as int, nm) { let q = choose|q: int| 0 <= q < l.len() && (#[trigger] l[q]).0@ == nm; assert(d.contains_key(l[q].0@)); }
+}
 // dispatch of handle_upper_inode_locked: the first real inode if it lives in the upper layer (rule R29 inlines closures against this)
 pub open spec fn sp_upper(v: Seq<RealInode>) -> Option<RealInode> { if v.len() > 0 && v[0].in_upper_layer { Some(v[0]) } else { None } }
 '''
@@ -132,6 +149,83 @@ SCAN_ENS = [
     }) // [C10.scan.union] the children are exactly the names listed by the contributing layers, each once, each the overlayfs union of its entries (topmost first)''' % dict(c0=CTX0),
     'r is Ok && self.wf() ==> forall|k: int| 0 <= k < r->Ok_0@.len() ==> (#[trigger] r->Ok_0@[k]).wf() // [C10.scan.wf]',
 ]
+
+
+SCAN_OUTER_INV = '''
+            invariant_except_break
+                it.index@ <= rs.len(), union_more(rs, *ctx) == it.index@ + union_more(rs.skip(it.index@), *ctx),
+                acc_ok(all_layer_inodes@, rs, *ctx, it.index@ as nat),
+            invariant
+                rs == self.ris(), it.seq().len() == rs.len(), forall|i: int| 0 <= i < rs.len() ==> *it.seq()[i] == rs[i],
+            ensures
+                acc_ok(all_layer_inodes@, rs, *ctx, union_more(rs, *ctx)),
+        '''
+SCAN_INNER_INV = '''
+            invariant
+                0 <= p <= l0.len(), ent_it.rem() == l0.skip(p), map_listing(d, l0), d == sp_listing(rs[j], *ctx), 0 <= j < rs.len(),
+                acc_mid(all_layer_inodes@, rs, *ctx, j as nat, d, l0, p),
+            ensures p == l0.len(),
+            decreases ent_it.rem().len(),
+        '''
+SCAN_INNER_MID = ''' let ghost l0 = ent_it.rem(); let ghost mut p: int = 0; proof { assert(forall|nm: Seq<char>| !consumed(l0, 0, nm)); assert(acc_mid(all_layer_inodes@, rs, *ctx, j as nat, d, l0, 0)); assert(l0.skip(0) =~= l0); }'''
+SCAN_INNER_PRE = ''' let ghost nm0 = name@; let ghost p0 = p; let ghost a0 = all_layer_inodes@;
+            proof { p = p + 1; assert(l0.skip(p0)[0] == l0[p0]); assert(l0.skip(p0).skip(1) =~= l0.skip(p0 + 1)); assert(name@ == l0[p0].0@ && inode == l0[p0].1 && inode == d[nm0]);
+                assert(!consumed(l0, p0, nm0)); }'''
+SCAN_AFTER_ENTRY = '''
+                proof {
+                    let a1 = all_layer_inodes@; let jj = j as nat;
+                    assert(l0[p0].0@ == nm0);
+                    assert forall|nm: Seq<char>| (#[trigger] a1.contains_key(nm) <==> (cands(rs, *ctx, jj, nm).len() > 0 || consumed(l0, p, nm)))
+                            && (a1.contains_key(nm) ==> a1[nm]@ == (if consumed(l0, p, nm) { cands(rs, *ctx, jj, nm).push(d[nm]) } else { cands(rs, *ctx, jj, nm) })) by {
+                        if nm == nm0 {
+                            assert(consumed(l0, p, nm));
+                            assert(a0.contains_key(nm0) <==> cands(rs, *ctx, jj, nm0).len() > 0);
+                            if !a0.contains_key(nm0) { assert(cands(rs, *ctx, jj, nm0) =~= Seq::<RealInode>::empty()); assert(Seq::<RealInode>::empty().push(d[nm0]) =~= seq![d[nm0]]); }
+                        } else {
+                            assert(consumed(l0, p, nm) <==> consumed(l0, p0, nm));
+                            assert(a1.contains_key(nm) <==> a0.contains_key(nm));
+                        }
+                    }
+                }'''
+SCAN_AFTER_LAYER = '''proof {
+                assert(acc_ok(all_layer_inodes@, rs, *ctx, (j + 1) as nat)) by {
+                    assert forall|nm: Seq<char>| (#[trigger] all_layer_inodes@.contains_key(nm) <==> cands(rs, *ctx, (j + 1) as nat, nm).len() > 0)
+                            && (all_layer_inodes@.contains_key(nm) ==> all_layer_inodes@[nm]@ == cands(rs, *ctx, (j + 1) as nat, nm)) by {
+                        lemma_consumed_all(d, l0, nm);
+                    }
+                }
+            }'''
+SCAN_CHILD_INV = '''
+            invariant
+                0 <= p2 <= l2.len(), child_it.rem() == l2.skip(p2), map_listing(a_fin, l2), childrens@.len() == p2, c0 == %s,
+                forall|k: int| 0 <= k < p2 ==> (#[trigger] childrens@[k]).name@ == l2[k].0@ && l2[k].1@.len() > 0 && childrens@[k].ris() == l2[k].1@.take(union_len(l2[k].1@, c0) as int)
+                    && childrens@[k].whiteout.v == l2[k].1@[0].whiteout,
+            ensures p2 == l2.len(),
+            decreases child_it.rem().len(),
+        ''' % CTX0
+SCAN_CHILD_PRE = ''' proof { assert(l2.skip(p2)[0] == l2[p2]); assert(l2.skip(p2).skip(1) =~= l2.skip(p2 + 1)); assert(name@ == l2[p2].0@ && real_inodes == l2[p2].1); }'''
+SCAN_FINAL = '''proof {
+            assert(acc_ok(a_fin, rs, *ctx, m));
+            assert forall|k: int| 0 <= k < childrens@.len() implies ({ let c = cands(rs, *ctx, m, (#[trigger] childrens@[k]).name@);
+                    c.len() > 0 && childrens@[k].ris() == c.take(union_len(c, c0) as int) && childrens@[k].whiteout.v == c[0].whiteout }) by {
+                assert(a_fin.contains_key(l2[k].0@) && a_fin[l2[k].0@] == l2[k].1);
+            }
+            assert forall|nm: Seq<char>| (#[trigger] cands(rs, *ctx, m, nm)).len() > 0 implies exists|k: int| 0 <= k < childrens@.len() && (#[trigger] childrens@[k]).name@ == nm by {
+                assert(a_fin.contains_key(nm));
+                let i = choose|i: int| 0 <= i < l2.len() && (#[trigger] l2[i]).0@ == nm;
+                assert(childrens@[i].name@ == nm);
+            }
+            if self.wf() {
+                lemma_union_more_bound(rs, *ctx);
+                assert forall|k: int| 0 <= k < childrens@.len() implies (#[trigger] childrens@[k]).wf() by {
+                    let c = cands(rs, *ctx, m, childrens@[k].name@);
+                    lemma_cands_wf(rs, *ctx, m, childrens@[k].name@);
+                    assert(a_fin.contains_key(l2[k].0@) && a_fin[l2[k].0@] == l2[k].1);
+                    lemma_union_more_bound(c.skip(1), c0);
+                    assert forall|i: int| 0 <= i < childrens@[k].ris().len() implies (#[trigger] childrens@[k].ris()[i]).wf() by { assert(childrens@[k].ris()[i] == c[i]); }
+                }
+            }
+        }'''
 
 
 def unit(root='/repo'):
@@ -186,6 +280,22 @@ def unit(root='/repo'):
                   requires=['self.ris().len() > 0 ==> f.requires((if self.ris()[0].in_upper_layer { Some(&self.ris()[0]) } else { None },))'],
                   ensures=['self.ris().len() == 0 ==> r is Err // [C11.handle_upper.dangling]',
                            'self.ris().len() > 0 ==> f.ensures((if self.ris()[0].in_upper_layer { Some(&self.ris()[0]) } else { None },), r) // [C11.handle_upper.dispatch] the callback gets the first real inode iff it lives in the upper layer (sp_upper)']))
+
+    scan = Fn(OVL, OI, 'scan_childrens', props=['C10'], canary=True, body_resub=[LOCK_RO, C.ARC_AS_REF], ensures=SCAN_ENS,
+              attrs=[],
+              splices=[('let mut all_layer_inodes: HashMap<String, Vec<RealInode>> = HashMap::new();', 'before', 'let ghost rs = self.ris(); let ghost c0 = %s; proof { assert(rs.skip(0) =~= rs); }' % CTX0),
+                       ('\n                };', 'after', SCAN_AFTER_ENTRY),
+                       ('let entries = ri.readdir(ctx)?;', 'after', 'let ghost d = entries@;'),
+                       ('if ri.opaque {', 'before', SCAN_AFTER_LAYER),
+                       ('let mut childrens = vec![];', 'replace', 'let ghost a_fin = all_layer_inodes@; let ghost m = union_more(rs, *ctx); let ghost mut p2: int = 0; let mut childrens: Vec<OverlayInode> = vec![];'),   # type ascription: inference needs it before the invariant mentions the vector
+                       ('childrens.push(new);', 'after', 'proof { p2 = p2 + 1; }'),
+                       ('Ok(childrens)', 'before', SCAN_FINAL)])
+    scan.body_hooks = [
+        R.r27_drop_zip_counter(label='it: ', header_extra=SCAN_OUTER_INV, body_prefix=' let ghost j = it.index@; proof { assert(*ri == rs[j]); lemma_union_more_step(rs, j, *ctx); }'),
+        R.r28_for_owned(r'\bfor\s+(\(name, inode\))\s+in\s+(entries)\s*\{', 'map_into_iter', 'ent_it', header_extra=SCAN_INNER_INV, body_prefix=SCAN_INNER_PRE, mid=SCAN_INNER_MID),
+        R.r28_for_owned(r'\bfor\s+(\(name, real_inodes\))\s+in\s+(all_layer_inodes)\s*\{', 'map_into_iter', 'child_it', header_extra=SCAN_CHILD_INV, body_prefix=SCAN_CHILD_PRE, mid=' let ghost l2 = child_it.rem(); proof { assert(l2.skip(0) =~= l2); }'),
+    ]
+    fns.append(scan)
     items.append(Group('impl OverlayInode {', fns))
     u = Unit('ovl_merge', items, preludes=['base.rs', 'stdmodel.rs'], generic_tags=C.GENERIC_TAGS, notes='; '.join(notes))
     u.prelude_subst = [('use std::collections::HashMap;', ''), ('Mutex', 'MutexRo'), ('AtomicBool', 'AtomicBoolRo')]
